@@ -78,7 +78,7 @@ theorem and80_cases (f : UInt8) : f &&& 0x80 = 0 ∨ f &&& 0x80 = 0x80 := by
       · have : Nat.testBit 128 i = false := by
           show Nat.testBit (2 ^ 7) i = false
           rw [Nat.testBit_two_pow]; simp [hi]
-        simp [hi, this]
+        simp [hi]
   rcases h with h | h
   · left; exact UInt8.toNat_inj.mp h
   · right; exact UInt8.toNat_inj.mp h
